@@ -197,6 +197,20 @@ fn count_task() {
     verif::TASKS_SPAWNED.with(|c| c.set(c.get() + 1));
 }
 
+/// Spawn a task that may borrow from the caller's stack.  shuttle's own scoped
+/// threads wake the scope owner when the last scoped thread ends *whatever it
+/// is blocked on*, which breaks as soon as the owner blocks inside a nested
+/// scope (nested `join`); so the stand-in uses plain tasks and joins every
+/// handle itself before the borrowed data goes out of scope.
+///
+/// SAFETY (caller): the returned handle must be joined before anything the
+/// closure borrows is dropped, and the code between spawn and join must not
+/// unwind.
+unsafe fn spawn_borrowing<'a>(f: Box<dyn FnOnce() + Send + 'a>) -> shuttle::thread::JoinHandle<()> {
+    let f: Box<dyn FnOnce() + Send + 'static> = unsafe { std::mem::transmute(f) };
+    shuttle::thread::spawn(f)
+}
+
 /// Run `items` as sibling pool tasks in context `ctx`; the caller (which may
 /// itself hold a slot of `caller`) blocks until all ended.
 fn run_siblings<I, F>(items: Vec<I>, f: &F)
@@ -216,36 +230,34 @@ where
     if let Some(c) = &caller {
         c.release();
     }
-    let mut payloads: Vec<Option<Payload>> = Vec::new();
-    shuttle::thread::scope(|s| {
-        let mut handles = Vec::new();
-        for (i, it) in items.into_iter().enumerate() {
+    let n = items.len();
+    let mut slots: Vec<Option<Payload>> = (0..n).map(|_| None).collect();
+    {
+        let mut handles = Vec::with_capacity(n);
+        for ((i, it), slot) in items.into_iter().enumerate().zip(slots.iter_mut()) {
             let ctx = ctx.with_index(i);
             let panicked = &panicked;
             count_task();
-            handles.push(s.spawn(move || -> Option<Payload> {
+            let body = move || {
                 set_ctx(Some(ctx.clone()));
                 ctx.acquire();
-                let r = if panicked.load(Ordering::SeqCst) && env_choice() {
-                    None
-                } else {
-                    match catch_unwind(AssertUnwindSafe(|| f(it))) {
-                        Ok(()) => None,
-                        Err(p) => {
-                            panicked.store(true, Ordering::SeqCst);
-                            Some(p)
-                        }
+                if !(panicked.load(Ordering::SeqCst) && env_choice()) {
+                    if let Err(p) = catch_unwind(AssertUnwindSafe(|| f(it))) {
+                        panicked.store(true, Ordering::SeqCst);
+                        *slot = Some(p);
                     }
-                };
+                }
                 ctx.release();
                 set_ctx(None);
-                r
-            }));
+            };
+            // SAFETY: every handle is joined below; nothing in between unwinds.
+            handles.push(unsafe { spawn_borrowing(Box::new(body)) });
         }
         for h in handles {
-            payloads.push(h.join().expect("shim task must not end by panicking"));
+            h.join().expect("shim task must not end by panicking");
         }
-    });
+    }
+    let payloads = slots;
     if let Some(c) = &caller {
         c.acquire();
     }
@@ -268,28 +280,30 @@ where
     }
     let caller = cur_ctx();
     let ctx = caller.clone().unwrap_or(Ctx::Global);
-    let mut ra: Option<Result<RA, Payload>> = None;
+    let ra: Option<Result<RA, Payload>>;
     let mut rb: Option<Result<RB, Payload>> = None;
-    shuttle::thread::scope(|s| {
+    {
         let ctxb = ctx.with_index(1);
         count_task();
-        let hb = s.spawn(move || -> Result<RB, Payload> {
+        let rbs = &mut rb;
+        let body = move || {
             set_ctx(Some(ctxb.clone()));
             ctxb.acquire();
-            let r = catch_unwind(AssertUnwindSafe(b));
+            *rbs = Some(catch_unwind(AssertUnwindSafe(b)));
             ctxb.release();
             set_ctx(None);
-            r
-        });
+        };
+        // SAFETY: joined below; `a` runs under catch_unwind, nothing else unwinds.
+        let hb = unsafe { spawn_borrowing(Box::new(body)) };
         ra = Some(catch_unwind(AssertUnwindSafe(a)));
         if let Some(c) = &caller {
             c.release();
         }
-        rb = Some(hb.join().expect("shim task must not end by panicking"));
+        hb.join().expect("shim task must not end by panicking");
         if let Some(c) = &caller {
             c.acquire();
         }
-    });
+    }
     match (ra.unwrap(), rb.unwrap()) {
         (Ok(x), Ok(y)) => (x, y),
         (Err(p), _) => resume_unwind(p),
@@ -333,18 +347,20 @@ impl ThreadPool {
             c.release();
         }
         let mut res: Option<Result<R, Payload>> = None;
-        shuttle::thread::scope(|s| {
+        {
             count_task();
-            let h = s.spawn(move || -> Result<R, Payload> {
+            let ress = &mut res;
+            let body = move || {
                 set_ctx(Some(ctx.clone()));
                 ctx.acquire();
-                let r = catch_unwind(AssertUnwindSafe(op));
+                *ress = Some(catch_unwind(AssertUnwindSafe(op)));
                 ctx.release();
                 set_ctx(None);
-                r
-            });
-            res = Some(h.join().expect("shim task must not end by panicking"));
-        });
+            };
+            // SAFETY: joined immediately.
+            let h = unsafe { spawn_borrowing(Box::new(body)) };
+            h.join().expect("shim task must not end by panicking");
+        }
         if let Some(c) = &caller {
             c.acquire();
         }
